@@ -79,7 +79,8 @@ def build(doc, flavour, rng):
         elif k == "SOLVR":
             dat.solver = {"type": 5, "z_precond": "Z1", "o_precond": "O0", "relative_max_iterations": 0.125, "closure": 1.0e-6}
         elif k == "MULTI":
-            dat.multi = {"num_components": s["ncomp"], "num_equations": 3, "num_phases": 2, "num_secondary_parameters": 6}
+            # (the numbers of components and of phases need not be equal: DIFFU holds components x phases)
+            dat.multi = {"num_components": s["ncomp"], "num_equations": 3, "num_phases": rng.choice([2, 2, 3, 1]), "num_secondary_parameters": 6}
             if flavour == "AUTOUGH2":
                 dat.multi["eos"] = "EW"
             else:
@@ -91,10 +92,17 @@ def build(doc, flavour, rng):
             dat.selection = {"integer": [s["n"]] + [rng.randint(0, 9) for _ in range(15)],
                              "float": [num(rng) for _ in range(8 * s["n"] - rng.choice([0, 1, 7]))]}
         elif k == "DIFFU":
-            dat.diffusion = [[num(rng), num(rng)] for _ in range(s["n"])]
+            nph = (dat.multi or {}).get("num_phases", 2)
+            dat.diffusion = [[num(rng) for _ in range(nph)] for _ in range(s["n"])]
         elif k == "MESHM":
-            v = s["n"] % 3
-            if v == 0:
+            v = {3: 0, 4: 1, 5: 2, 6: 3}[s["n"]]
+            if v == 3:
+                # two modules in one section: RZ2D followed by MINC
+                dat.meshmaker = [("rz2d", [("radii", {"radii": [float(i) for i in range(4)]}), ("equid", {"nequ": 5, "dr": 2.5}),
+                                           ("layer", {"layer": [10.0, 20.0]})]),
+                                 ("minc", {"type": "ONE-D", "dual": "DFLT", "num_continua": 3, "where": "OUT ",
+                                           "spacing": [2.5, 12.5], "vol": [0.125, 0.5]})]
+            elif v == 0:
                 dat.meshmaker = [("rz2d", [("radii", {"radii": [float(i) for i in range(rng.choice([3, 8, 9]))]}),
                                            ("equid", {"nequ": 5, "dr": 2.5}), ("logar", {"nlog": 10, "rlog": 1.0e3, "dr": 0.5}),
                                            ("layer", {"layer": [float(10 * (i + 1)) for i in range(rng.choice([1, 8, 10]))]})])]
